@@ -360,6 +360,7 @@ impl PropertySet {
         for (_, value) in self.properties.iter() {
             value.write(writer.by_ref(), self.codepage)?;
         }
+        writer.flush()?;
         Ok(())
     }
 
